@@ -42,6 +42,10 @@ def run(ck):
         g["vals"] = g["vals"][:12]
         g["calls"] = [pcall(a, "list", extra=False) for a in FIT4]
         groups.append(g)
+    for g in gen.gscale_families(ck.rng, 100 if q else 3000, cover=False):
+        g = dict(g); g.pop("fmts")
+        g["calls"] = [pcall(a, "list", extra=False) for a in FIT4]
+        groups.append(g); ck.cat("common_factor_1e8")
     ck.rule = ("TLC enumerates every arrival ORDER (sequence) of <=5 values in 0..C for C in {4,6,12} and dyadic eighths; ff, ffd, bf, bfd executed on each; "
                "any-fit invariant judged on the Partition output, bin-count bounds against Oracles.MinBins; seeded families of 6-12 items; planted perfect "
                "packings up to 300 items in random order with TLC-certified optimum; classical bad families. non-trivial = distinct (sequence, C) with >=2 items")
